@@ -689,6 +689,78 @@ theorem C03_fn_revokeCp (F : Nat → Secrets.Bytes → Secrets.Bytes)
               · simp only [if_neg t1, if_neg t2, if_pos t3]; simp [fail]
               · simp only [if_neg t1, if_neg t2, if_neg t3]; simp [toES]
 
+-- non-vacuity of the hypotheses of the composition theorems: commit 4 / revoke 3, sign 4 with point 14; revoke 3
+example :=
+  C03_fn_signCp (fun _ _ => ((), ())) (fun _ _ => ((), ())) (fun _ _ _ _ _ _ => contentRules true "")
+    (fun _ n => (toES { slot := .ready, cpCommit := 4, cpRevoke := 3, curPt := some 13, prevPt := some 12 }).get_previous_counterparty_commit_info n)
+    { slot := .ready, cpCommit := 4, cpRevoke := 3, curPt := some 13, prevPt := some 12 } 4 14 1 true "" rfl rfl
+    (by decide) (by decide) (by decide)
+example :=
+  C03_fn_revokeCp Secrets.shaF (fun _ s => s + 10)
+    (fun _ n => (toES { slot := .ready, cpCommit := 5, cpRevoke := 3, curPt := some 14, prevPt := some 13 }).get_previous_counterparty_point n)
+    { slot := .ready, cpCommit := 5, cpRevoke := 3, curPt := some 14, prevPt := some 13 } 3 3 13 [] rfl rfl
+    (by decide) (by decide)
+
+/-! #### the window invariant on the generated functions
+
+`C03_window` (model, all histories) says `revoke + 1 ≤ commit ≤ revoke + 2` once anything was signed.  Read off the
+GENERATED decision lists alone: whenever the generated `Validator::set_next_counterparty_commit_num` /
+`…_revoke_num` return a state, that state has the window — whatever the state before was (no invariant needed: the two
+guards establish it), for every 64-bit input. -/
+
+/-- window of an `EnforcementState` (generated structure) -/
+def WindowES (e : ES) : Prop :=
+  e.next_counterparty_revoke_num + 1 ≤ e.next_counterparty_commit_num
+  ∧ e.next_counterparty_commit_num ≤ e.next_counterparty_revoke_num + 2
+
+theorem C03_fn_window_after_sign (c : Chan) (n pt info : Nat) (e : ES)
+    (hr : c.cpRevoke + 2 ≤ Rs.U64_MAX) (hc : c.cpCommit + 1 ≤ Rs.U64_MAX)
+    (hpre : n ≤ c.cpRevoke + 1)      -- the check of `validate_counterparty_commitment_tx` (`C03_fn_validate_counterparty_commitment_tx`)
+    (hok : Validator.set_next_counterparty_commit_num strict () (toES c) (n + 1) pt info = .ok e) :
+    WindowES e := by
+  rw [C03_fn_validator_set_next_counterparty_commit_num strict rfl c n pt info hr hc] at hok
+  by_cases a : n + 1 < c.cpRevoke + (if n + 1 = 1 then 1 else 2)
+  · rw [if_pos a] at hok; cases hok
+  · rw [if_neg a] at hok
+    by_cases b : n + 1 ≠ c.cpCommit ∧ n + 1 ≠ c.cpCommit + 1
+    · rw [if_pos b] at hok; cases hok
+    · rw [if_neg b] at hok
+      have hd : (if n + 1 = 1 then 1 else 2) ≥ 1 := by split <;> omega
+      by_cases d : n + 1 = c.cpCommit + 1
+      · rw [if_pos d] at hok
+        have he := (Except.ok.inj hok).symm
+        subst he
+        simp only [WindowES, toES]
+        omega
+      · rw [if_neg d] at hok
+        have he := (Except.ok.inj hok).symm
+        subst he
+        simp only [WindowES, toES]
+        have : n + 1 = c.cpCommit := by
+          by_cases x : n + 1 = c.cpCommit
+          · exact x
+          · exact absurd ⟨x, d⟩ b
+        omega
+
+theorem C03_fn_window_after_revoke (c : Chan) (n : Nat) (e : ES)
+    (hn : n + 3 ≤ Rs.U64_MAX) (hr : c.cpRevoke + 1 ≤ Rs.U64_MAX)
+    (hok : Validator.set_next_counterparty_revoke_num strict () (toES c) (n + 1) = .ok e) :
+    WindowES e := by
+  rw [C03_fn_validator_set_next_counterparty_revoke_num strict rfl c n hn hr] at hok
+  by_cases a : n + 1 + 2 < c.cpCommit
+  · rw [if_pos a] at hok; cases hok
+  · rw [if_neg a] at hok
+    by_cases b : n + 1 + 1 > c.cpCommit
+    · rw [if_pos b] at hok; cases hok
+    · rw [if_neg b] at hok
+      by_cases d : n + 1 ≠ c.cpRevoke ∧ n + 1 ≠ c.cpRevoke + 1
+      · rw [if_pos d] at hok; cases hok
+      · rw [if_neg d] at hok
+        have he := (Except.ok.inj hok).symm
+        subst he
+        simp only [WindowES, toES]
+        omega
+
 end SimpleState
 
 end VlsModel.Props.C03Fn
